@@ -445,7 +445,7 @@ func (g *gen) safeAtom() slip.Object {
 		g.ctx.Hist("leaf:character")
 		for {
 			ch := g.scalar()
-			if ch == 0 || strings.ContainsRune("!\"$%&'();?[\\]`{}", ch) {
+			if strings.ContainsRune("!\"$%&'();?[\\]`{}", ch) {
 				continue
 			}
 			return slip.Character(ch)
@@ -929,6 +929,13 @@ func repairedCases() (out []repairedCase) {
 		for _, c := range []cfg{flat, pretty, with(pretty, func(c *cfg) { c.pcase = "up"; c.margin = 2 })} {
 			out = append(out, repairedCase{"C03-11", c, slip.Symbol(name)})
 			out = append(out, repairedCase{"C03-11", c, slip.List{slip.Symbol("x"), slip.Symbol(name), slip.Tail{Value: slip.Symbol(name)}}})
+		}
+	}
+	// C03-12: the NUL character, alone, in lists and next to strings holding it
+	for _, o := range []slip.Object{slip.Character(0), slip.List{slip.Character(0), slip.Character('a'), slip.Character(0)},
+		slip.List{slip.String("a\x00b"), slip.Tail{Value: slip.Character(0)}}, slip.NewVector(2, slip.TrueSymbol, nil, slip.List{slip.Character(0), slip.Character(1)}, false)} {
+		for _, c := range []cfg{flat, pretty, with(pretty, func(c *cfg) { c.pcase = "up"; c.margin = 2 }), with(flat, func(c *cfg) { c.readably = false })} {
+			out = append(out, repairedCase{"C03-12", c, o})
 		}
 	}
 	return
